@@ -68,6 +68,9 @@ ParseCacheValue = typing.Union[MatchSet, "ParseError"]
 class ParseCache(typing.MutableMapping[ParseCacheKey, ParseCacheValue]):
     max_cache_size: int | None = None
     objects: WeakSet[ParseCache] = WeakSet()
+    # bumped whenever a grammar is modified; entries stored under an earlier
+    # generation were computed with the old grammar and are dropped on next use.
+    generation: typing.ClassVar[int] = 0
 
     def __new__(cls, max_size: int | None = None):
         obj = super().__new__(cls)
@@ -84,8 +87,20 @@ class ParseCache(typing.MutableMapping[ParseCacheKey, ParseCacheValue]):
         self.max_size = max_size
         self.hits = 0
         self.misses = 0
+        self.stored_generation = ParseCache.generation
+
+    @classmethod
+    def invalidate(cls) -> None:
+        """Marks every cached parse result as stale.  Called when a rule is (re)defined."""
+        ParseCache.generation = ParseCache.generation + 1
+
+    def _drop_stale(self) -> None:
+        if self.stored_generation != ParseCache.generation:
+            self.dict = OrderedDict()
+            self.stored_generation = ParseCache.generation
 
     def __getitem__(self, key: ParseCacheKey) -> ParseCacheValue:
+        self._drop_stale()
         try:
             value = self.dict[key]
         except KeyError:
@@ -98,17 +113,21 @@ class ParseCache(typing.MutableMapping[ParseCacheKey, ParseCacheValue]):
 
     def __setitem__(self, key: ParseCacheKey, value: ParseCacheValue):
         # here we want to expel least recently used entries, defined to the first entries in the order.
+        self._drop_stale()
         self.dict[key] = value
         if self.max_size and len(self.dict) > self.max_size:
             self.dict.popitem(last=False)
 
     def __delitem__(self, key: ParseCacheKey):
+        self._drop_stale()
         del self.dict[key]
 
     def __iter__(self):
+        self._drop_stale()
         return self.dict.__iter__()
 
     def __len__(self):
+        self._drop_stale()
         return len(self.dict)
 
     def __hash__(self):
@@ -451,6 +470,7 @@ class Rule:
         else:
             if isinstance(definition, Alternation):
                 definition.first_match = value
+                ParseCache.invalidate()
             else:
                 # skip.  Or should some exception be raised?
                 pass
@@ -469,6 +489,12 @@ class Rule:
         Then attempting to use "foo" as an identifier would result in a ParseError.
         """
         self.exclude = rule
+
+    def __setattr__(self, name: str, value: typing.Any) -> None:
+        super().__setattr__(name, value)
+        if name in ("definition", "exclude"):
+            # results cached by repetitions anywhere above this rule are now stale.
+            ParseCache.invalidate()
 
     def lparse(self, source: Source, start: int) -> Matches:
         def exclude(match: Match) -> bool:
